@@ -185,6 +185,18 @@ class C10(Prop):
         from props import c10_extract
         return c10_extract.extract(bdir)
 
+    def func_at(self, lineno):
+        """name of the function of lib/efuns/call_out.c that contains the given line ("?" if none)"""
+        try:
+            src = open(os.path.join(E.REPO, "lib/efuns/call_out.c"), encoding="latin-1").read().split("\n")
+        except OSError:
+            return "?"
+        for i in range(min(lineno, len(src)) - 1, -1, -1):
+            m = re.match(r"(?:[A-Za-z_][\w \t\*]*?[ \t\*])?([A-Za-z_]\w*)[ \t]*\([^;]*$", src[i])
+            if m and not src[i][0].isspace() and m.group(1) not in ("if", "while", "for", "switch", "return", "sizeof"):
+                return m.group(1)
+        return "?"
+
     def canon(self, lines):
         out = []
         for l in lines:
@@ -194,12 +206,12 @@ class C10(Prop):
             # call_function_pointer's message names the clone ("/c10/obj#3"): reduced to a stable text
             if l.startswith("err *Owner (") and "of function pointer is destructed" in l:
                 l = "err *fp-owner-destructed"
-            # UBSan report of the handle computation: path, line and column removed
-            m = re.match(r"sanitizer .*call_out\.c:\d+:\d+: runtime error: (signed integer overflow: .*)$", l)
+            # UBSan report of int arithmetic in call_out.c: path, line and column replaced by the enclosing function
+            m = re.match(r"sanitizer .*call_out\.c:(\d+):\d+: runtime error: (signed integer overflow: .*)$", l)
             if m:
-                l = "sanitizer call_out.c: " + m.group(1)
+                l = "sanitizer call_out.c(%s): %s" % (self.func_at(int(m.group(1))), m.group(2))
             # the order in which UBSan names the two factors is the compiler's choice: smaller one first
-            m = re.match(r"(sanitizer call_out\.c: signed integer overflow: )(\d+) \* (\d+)( cannot .*)$", l)
+            m = re.match(r"(sanitizer call_out\.c\(\w+\): signed integer overflow: )(\d+) \* (\d+)( cannot .*)$", l)
             if m and int(m.group(2)) > int(m.group(3)):
                 l = m.group(1) + m.group(3) + " * " + m.group(2) + m.group(4)
             out.append(l)
@@ -220,6 +232,50 @@ class C10(Prop):
             return int(m.group(1))
         except Exception:
             return 32
+
+    CHURN = ["rmh", "rmh2", "rmn", "rmall", "reload", "fire", "errfire", "fpfire", "deaddrop", "deadfp", "rmall-dead"]
+
+    def churn(self, kind, n):
+        """the same way of ending a call_out `n` times with at most three ever in use: a structure that is not given
+        back to the free list on that path shows up as a second chunk in the final usage line (oracle: usage-allocated)"""
+        L = []
+        nobj = 2
+        for i in range(n):
+            t = "c%d" % i
+            if kind == "rmh":
+                L += ["vapply o1 do_op co,0,50,%s" % t, "vapply o1 do_op rmh,%s" % t]
+            elif kind == "rmh2":
+                L += ["vapply o1 do_op co,0,50,%s" % t, "vapply o1 do_op cofp,1,82,%sb" % t, "vapply o1 do_op rmh,%s" % t,
+                      "vapply o1 do_op rmh,%sb" % t]
+            elif kind == "rmn":
+                L += ["vapply o1 do_op co,1,50,%s" % t, "vapply o1 do_op coa,2,18,A%s" % t, "vapply o1 do_op rmn,1", "vapply o1 do_op rmn,2"]
+            elif kind == "rmall":
+                L += ["vapply o1 do_op co,0,50,%s" % t, "vapply o1 do_op cofp,1,50,%sb" % t, "vapply o1 do_op rmall"]
+            elif kind == "reload":
+                L += ["vapply o1 do_op coa,0,50,A%s" % t, "vapply o1 do_op cofpb,1,7,%sb" % t, "vapply o1 do_op reload"]
+            elif kind == "fire":
+                L += ["gop o2 o1 coa,0,1,A%s" % t, "adv 1", "sweep"]
+            elif kind == "errfire":
+                L += ["vapply o1 set_script co:%s err" % t, "vapply o1 do_op co,0,1,%s" % t, "adv 1", "sweep"]
+            elif kind == "fpfire":
+                L += ["vapply o1 do_op cofpb,0,1,%s" % t, "adv 1", "sweep"]
+            elif kind in ("deaddrop", "deadfp", "rmall-dead"):
+                nobj += 1
+                op = {"deaddrop": "coa,0,1,A%s", "deadfp": "cofp,0,1,%s", "rmall-dead": "co,0,9,%s"}[kind] % t
+                L += ["gop o2 o%d %s" % (nobj, op), "vapply o1 do_op dest,o%d" % nobj]
+                L += ["vapply o1 do_op rmall"] if kind == "rmall-dead" else ["adv 1", "sweep"]
+            if i % 8 == 7:
+                L.append("vapply o1 do_op usage")
+        L += ["vapply o1 do_op usage", "vapply o1 do_op info"]
+        return nobj, L
+
+    def chunk(self):
+        """the regenerated CHUNK_SIZE"""
+        try:
+            m = re.search(r"def chunkSize : \w+ := (\d+)", open(os.path.join(E.LEAN, "NV/Gen/C10.lean")).read())
+            return int(m.group(1))
+        except Exception:
+            return 20
 
     def boundary(self):
         B = []
@@ -326,6 +382,10 @@ class C10(Prop):
         mk("reschedule-chain", ["vapply o1 set_script co:a co,0,1,b", "vapply o1 set_script co:b co,0,32,c",
                                 "vapply o1 set_script co:c co,0,31,d", "vapply o1 do_op co,0,1,a", "adv 1", "sweep",
                                 "adv 1", "sweep", "adv 32", "sweep", "adv 31", "sweep"])
+        # every way a call_out can end, repeated more often than a chunk has structures (leak detection per path)
+        for kind in self.CHURN:
+            nobj, lines = self.churn(kind, self.chunk() + 6)
+            mk("churn-" + kind, lines, nobj=nobj)
         return B
 
     def gen_ops(self, rng, st, self_obj, depth, n):
@@ -399,7 +459,15 @@ class C10(Prop):
         return E.Case(cid, head + body, {"origin": "generated"})
 
     def generate(self, rng, n, tier):
-        return [self.gen_case(rng, "g%d" % i) for i in range(n)]
+        cases = []
+        for i in range(n):
+            if rng.chance(1, 15):
+                nobj, lines = self.churn(rng.choice(self.CHURN), self.chunk() + rng.range(2, 25))
+                head = ["clone o%d /c10/obj" % k for k in range(1, nobj + 1)]
+                cases.append(E.Case("g%d" % i, head + lines, {"origin": "generated-churn"}))
+            else:
+                cases.append(self.gen_case(rng, "g%d" % i))
+        return cases
 
     def histogram(self, cases, impl):
         """branch histogram of a run (generator audit): which mechanisms of call_out.c the cases reached"""
